@@ -309,10 +309,6 @@ def run(ctx):
     macroman_search(ctx, shim)
     default_search(ctx, shim, chars, ctx.rng("default"), ctx.budget(500, 40000))
     corpus_monitors(ctx, shim, ctx.rng("corpus"), ctx.budget(300, 2128))
-    if ctx.broken and any(v[2] for v in ctx.violations):
-        ctx.violation("proof or correspondence no longer checks: " +
-                      ", ".join(str(b.get("module") or b.get("stream")) for b in ctx.broken),
-                      {"stage": "prove/correspond", "broken": ctx.broken}, found_input=False)
 
 
 def replay(ctx, rp):
